@@ -38,7 +38,7 @@ impl ProfibusPhy for Phy {
     where
         F: FnOnce(&mut [u8]) -> (usize, R),
     {
-        let mut buf = [0u8; 256];
+        let mut buf = [0xA5u8; 256]; // a dirty transmit buffer (real PHYs reuse theirs)
         let (n, r) = f(&mut buf);
         if n > 0 {
             self.tx = Some(buf[..n.min(256)].to_vec());
